@@ -141,13 +141,20 @@ class Check(PropertyCheck):
                   "strftime, open failures), ALL states and ALL event histories: completion_appends_exactly_one_if_match, "
                   "nonmatching_never_written (step + whole-history form), started_uncompleted_written_once_at_stop "
                   "(start hook, then any history without a completion of that flow or a stop, then stop), "
-                  "no_record_before_completion_except_stop, append_mode_keeps_prefix, plus the reachable-state "
+                  "no_record_before_completion_except_stop, append_mode_keeps_prefix, lifecycle_written_exactly_once (start hook, "
+                  "ANY interleaving without that flow's completion/stop/exit incl. filter and file changes and rotations, "
+                  "completion hook: over the whole history exactly one record of the flow iff it matches at completion), "
+                  "completion_record_goes_to_formatted_path + stream_file_handle_is_current_path + completion_file_reachable "
+                  "(after any history the record is appended to the file named by the strftime pattern at the time of the "
+                  "hook, no other file changes; the file system handle always equals the addon's current path), plus the reachable-state "
                   "invariants (stream open <-> path set, writer filter = current filter, no duplicate open flows, "
                   "open flows only while streaming). The model is tied to the real Save/FilteredFlowWriter by replaying "
                   "identical histories and comparing, after every event, exception/exit status, stream open, the open-flow "
                   "set and the records appended to / truncated from every file (parsed back with FlowReader).")
     level_note = ("flowfilter.match, strftime and Path.open are environment parameters of the theorems; the driver "
-                  "instantiates them with a 9-atom filter AST, one rotating pattern and two unopenable paths, which the "
+                  "instantiates them with a 14-atom filter AST (~all ~http ~tcp ~udp ~dns ~websocket ~s ~e ~marked ~q ~replay "
+                  "'~m POST' '~c 200' '~c 404' with ! & |), three strftime patterns over an hour/minute clock (r%M, d%H/x%M with "
+                  "directory creation, h%H) and three unopenable paths, which the "
                   "correspondence run also validates. Iteration order of the active_flows set is abstracted (batches "
                   "compared sorted). The `save.file` command (unfiltered FlowWriter) is not part of the statement and not "
                   "modelled. Model follows save.py after the repair of F-C39a (fix commit in /repo). On a simultaneous "
@@ -155,7 +162,7 @@ class Check(PropertyCheck):
                   "modelled as implemented, the oracle accepts either filter there.")
     technique = "Lean 4 proof (transition system, invariants, induction over histories) + differential model-vs-code correspondence"
     rule = ("per-flow lifecycles of every type (incl. WebSocket upgrade, response+error, double completion, completion "
-            "without start) interleaved for <=5 flows, with option updates (append/overwrite, 4 path patterns incl. rotating "
+            "without start) interleaved for <=5 flows, with option updates (append/overwrite, 6 path patterns incl. three rotating ones "
             "and unopenable, filters over 9 atoms with !,&,|, invalid filter, stop, simultaneous changes), clock ticks and "
             "`done` at any point, continuing after a stop; ~10% raw random hook soups. distinct = distinct history; "
             "non-trivial = at least one record written.")
